@@ -128,7 +128,21 @@ def build_motl_df(rows, g, rng):
     for i, p in enumerate(rows):
         for f in FIELDS14:
             cols[f][i] = g.motl_value(f, p[f])
-    return motlutil.df_from_cols(cols)
+    return motlutil.df_from_cols(cols, order=column_order(rng))
+
+
+def column_order(rng):
+    """The constructors accept the 20 fields in any column order: canonical, reversed or a random permutation.
+    Every expectation is by field NAME."""
+    k = rng.random()
+    if k < 0.34:
+        return None
+    order = list(motlutil.FIELDS)
+    if k < 0.67:
+        order.reverse()
+    else:
+        rng.shuffle(order)
+    return order
 
 
 def build_sg_df(sgrows, g, rng):
